@@ -453,6 +453,14 @@ func runRobust(tier string, seed int64, phase string) {
 			recNewMnemonic(n, l, Event{"fam": "robust"})
 			src.script, src.pos = nil, 0
 			recNewMnemonic(n, l, Event{"fam": "robust"})
+			// finite sources (a file, a bytes.Reader) that end after some bytes, in pieces, with the end reported alone or
+			// alongside the last bytes: the call returns (seeded change C14l: a bare EOF after some bytes retried for ever)
+			need := int(n + n/3)
+			for _, sc := range [][]rstep{{{K: 5}, {K: 0, Err: "EOF"}}, {{K: need - 1}, {K: 0, Err: "EOF"}}, {{K: 1}, {K: 2}, {K: 0, Err: "EOF"}},
+				{{K: need / 2, Err: "EOF"}}, {{K: 4}, {K: 0, Err: "UEOF"}}, {{K: need - 1}, {K: 1, Err: "EOF"}}} {
+				src.script, src.pos = sc, 0
+				recNewMnemonic(n, l, Event{"fam": "robust"})
+			}
 		}
 	}
 	swapSource(osRandReader(), "os")
